@@ -6,13 +6,34 @@
        construction, what the model's satisfier returns (existence and result coincide);
      * C17_completed_plan_spends: hence (with C01) every completed plan of the model spends;
      * C17_lock_merge: the lock a concatenation reports is, per unit, one of its operands' and
-       not smaller than either (mixed units never yield a Stack) — the accumulation step
-       behind "reported lock = the largest lock on the chosen path".
-   NOT yet proved (kept visible): necessity of the reported locks at Script level
-   (forall e with a smaller lock value / the other unit / a final sequence, exec rejects); the
-   per-run check probes exactly that on every completed plan with the extracted Script
-   semantics (lock - 1, other unit, final sequence, disable bit). *)
-From Verif Require Import Exec Ser Ast Types TypeCheck SatSpec Sat ExecLemmas TheoremA SatProofs PlanProofs.
+       not smaller than either (mixed units never yield a Stack).
+   Reported locks are exact at Script level (Proofs/LockNeed*.v; all fragments incl. thresh / multi /
+   multi_a, raw_pk_h excluded as in Theorem A; both plan modes; every asset set):
+     * C17_reported_locks_suffice (L1): the completed plan is accepted in EVERY environment whose
+       nLockTime / nSequence / version pass CLTV resp. CSV (Script/Exec.v: check_locktime,
+       check_sequence) for exactly the reported values -- no other after()/older() of the
+       descriptor, and none of the locks the satisfier was merely allowed to consider, is asked;
+     * C17_abs_lock_necessary / C17_rel_lock_necessary (L2): when CLTV (CSV) fails for the
+       reported value -- smaller nLockTime, other unit, final sequence; smaller sequence, other unit,
+       disable bit, version < 2: C17_cltv_fails_iff / C17_csv_fails_iff -- execution of the script on
+       the completed plan FAILS, on every stack below it;
+     * C17_reported_locks_exact: accepted  <->  the reported locks are met;
+     * C17_no_abs_no_cltv / C17_no_rel_no_csv (L3): a lock that is not reported is not executed at
+       all (no TAbs / TRel event on the executed path); C17_no_lock_any_tx: with no lock reported,
+       every nLockTime / nSequence (final, disable bit) / version is accepted;
+       C17_no_abs_any_locktime, C17_no_rel_any_sequence;
+     * C17_executed_locks: on the executed path, every CLTV (CSV) operand is in the unit of the
+       reported lock and not larger, and the reported one is among them;
+       C17_locks_on_path: the same read off the instrumented execution (accepts_tr / checks);
+     * C17_result_in_restricted_table: every Stack the satisfier returns (any fragment, satisfaction
+       or dissatisfaction) is an entry of the specification table of the assets restricted to the
+       locks that result reports;
+     * C17_exec_lock_factor: Script level -- changing only nLockTime / nSequence / version either
+       keeps a successful run unchanged or makes it fail at an executed lock check.
+   No fragment over-reports or under-reports in the model (no `_refuted`); the per-run check keeps
+   probing the same on /repo's plans (lock - 1, other unit, final sequence, disable bit). *)
+From Verif Require Import Exec ExecTrace Ser Ast Types TypeCheck SatSpec Sat ExecLemmas ExecTraceLemmas TheoremA SatProofs PlanProofs.
+From Verif Require Import LockNeedExec LockNeedTable LockNeedSuffice LockNeedTrace LockNeedMain.
 
 Theorem C17_plan_is_template : forall ke se f mall rhs m,
   satisfy ke se f mall rhs m =
@@ -39,3 +60,211 @@ Theorem C17_lock_merge : forall (a b : satn) l, s_stack (concatenate_rev a b) = 
   end.
 Proof. exact concat_abs_lock. Qed.
 Print Assumptions C17_lock_merge.
+
+(* ---------- reported locks are sufficient (L1) ---------- *)
+Theorem C17_reported_locks_suffice :
+  forall (e : env) (ke : keyenv) (A : assets) (se : senv) (f : fill),
+  linked ke A se f -> (forall ks, length (ksort ke ks) = length ks) ->
+  crypto_ok e ke A -> (forall kbs, e_sigok e kbs [] = false) ->
+  forall (mall rhs : bool) (m : ms) (t : ty),
+    type_of m = ROk t -> c_base (t_corr t) = BB -> wf e ke m -> no_multi m ->
+    forall tpl bs, plan_template ke se mall rhs m = Some tpl -> plan_complete f tpl = Some bs ->
+      lock_met e (plan_abs ke se mall rhs m) (plan_rel ke se mall rhs m) ->
+      accepts e (enc ke m) (rev bs) = true.
+Proof. exact plan_locks_suffice. Qed.
+Print Assumptions C17_reported_locks_suffice.
+
+(* ---------- reported locks are necessary (L2) ---------- *)
+Theorem C17_abs_lock_necessary :
+  forall (e : env) (ke : keyenv) (A : assets) (se : senv) (f : fill),
+  linked ke A se f -> (forall ks, length (ksort ke ks) = length ks) ->
+  crypto_ok e ke A -> (forall kbs, e_sigok e kbs [] = false) ->
+  forall (mall rhs : bool) (m : ms) (t : ty),
+    type_of m = ROk t -> c_base (t_corr t) = BB -> wf e ke m -> no_multi m ->
+    forall tpl bs, plan_template ke se mall rhs m = Some tpl -> plan_complete f tpl = Some bs ->
+    forall T, plan_abs ke se mall rhs m = Some T -> check_locktime e (Z.of_N T) = false ->
+    forall below al, exec e (enc ke m) (mkSt (rev bs ++ below) al) = Fail.
+Proof. exact plan_abs_lock_necessary. Qed.
+Print Assumptions C17_abs_lock_necessary.
+
+Theorem C17_rel_lock_necessary :
+  forall (e : env) (ke : keyenv) (A : assets) (se : senv) (f : fill),
+  linked ke A se f -> (forall ks, length (ksort ke ks) = length ks) ->
+  crypto_ok e ke A -> (forall kbs, e_sigok e kbs [] = false) ->
+  forall (mall rhs : bool) (m : ms) (t : ty),
+    type_of m = ROk t -> c_base (t_corr t) = BB -> wf e ke m -> no_multi m ->
+    forall tpl bs, plan_template ke se mall rhs m = Some tpl -> plan_complete f tpl = Some bs ->
+    forall R, plan_rel ke se mall rhs m = Some R -> check_sequence e (Z.of_N R) = false ->
+    forall below al, exec e (enc ke m) (mkSt (rev bs ++ below) al) = Fail.
+Proof. exact plan_rel_lock_necessary. Qed.
+Print Assumptions C17_rel_lock_necessary.
+
+(* when CLTV / CSV fails for an operand: smaller value, other unit, final sequence / disable bit, version *)
+Theorem C17_cltv_fails_iff : forall e T, check_locktime e (Z.of_N T) = false <->
+  (N.ltb T LOCKTIME_THRESHOLD <> N.ltb (e_locktime e) LOCKTIME_THRESHOLD) \/ (e_locktime e < T)%N \/ e_sequence e = SEQ_FINAL.
+Proof. exact check_locktime_false. Qed.
+Print Assumptions C17_cltv_fails_iff.
+
+Theorem C17_csv_fails_iff : forall e R, (R < 2147483648)%N -> (check_sequence e (Z.of_N R) = false <->
+  (e_txversion e < 2)%N \/ N.land (e_sequence e) SEQ_DISABLE <> 0%N \/
+  N.land R SEQ_TYPE <> N.land (e_sequence e) SEQ_TYPE \/ (N.land (e_sequence e) SEQ_MASK < N.land R SEQ_MASK)%N).
+Proof. exact check_sequence_false. Qed.
+Print Assumptions C17_csv_fails_iff.
+
+(* ---------- necessary and sufficient ---------- *)
+Theorem C17_reported_locks_exact :
+  forall (e : env) (ke : keyenv) (A : assets) (se : senv) (f : fill),
+  linked ke A se f -> (forall ks, length (ksort ke ks) = length ks) ->
+  crypto_ok e ke A -> (forall kbs, e_sigok e kbs [] = false) ->
+  forall (mall rhs : bool) (m : ms) (t : ty),
+    type_of m = ROk t -> c_base (t_corr t) = BB -> wf e ke m -> no_multi m ->
+    forall tpl bs, plan_template ke se mall rhs m = Some tpl -> plan_complete f tpl = Some bs ->
+      (accepts e (enc ke m) (rev bs) = true <-> lock_met e (plan_abs ke se mall rhs m) (plan_rel ke se mall rhs m)).
+Proof. exact plan_locks_exact. Qed.
+Print Assumptions C17_reported_locks_exact.
+
+(* ---------- a lock that is not reported is not executed (L3) ---------- *)
+Theorem C17_no_abs_no_cltv :
+  forall (e : env) (ke : keyenv) (A : assets) (se : senv) (f : fill),
+  linked ke A se f -> (forall ks, length (ksort ke ks) = length ks) ->
+  crypto_ok e ke A -> (forall kbs, e_sigok e kbs [] = false) ->
+  forall (mall rhs : bool) (m : ms) (t : ty),
+    type_of m = ROk t -> c_base (t_corr t) = BB -> wf e ke m -> no_multi m ->
+    forall tpl bs, plan_template ke se mall rhs m = Some tpl -> plan_complete f tpl = Some bs ->
+    forall below al, lock_met e (plan_abs ke se mall rhs m) (plan_rel ke se mall rhs m) ->
+      plan_abs ke se mall rhs m = None -> abs_evs (tr_script e (enc ke m) (mkSt (rev bs ++ below) al)) = [].
+Proof. exact plan_no_abs_no_cltv. Qed.
+Print Assumptions C17_no_abs_no_cltv.
+
+Theorem C17_no_rel_no_csv :
+  forall (e : env) (ke : keyenv) (A : assets) (se : senv) (f : fill),
+  linked ke A se f -> (forall ks, length (ksort ke ks) = length ks) ->
+  crypto_ok e ke A -> (forall kbs, e_sigok e kbs [] = false) ->
+  forall (mall rhs : bool) (m : ms) (t : ty),
+    type_of m = ROk t -> c_base (t_corr t) = BB -> wf e ke m -> no_multi m ->
+    forall tpl bs, plan_template ke se mall rhs m = Some tpl -> plan_complete f tpl = Some bs ->
+    forall below al, lock_met e (plan_abs ke se mall rhs m) (plan_rel ke se mall rhs m) ->
+      plan_rel ke se mall rhs m = None -> rel_evs (tr_script e (enc ke m) (mkSt (rev bs ++ below) al)) = [].
+Proof. exact plan_no_rel_no_csv. Qed.
+Print Assumptions C17_no_rel_no_csv.
+
+Theorem C17_no_lock_any_tx :
+  forall (e : env) (ke : keyenv) (A : assets) (se : senv) (f : fill),
+  linked ke A se f -> (forall ks, length (ksort ke ks) = length ks) ->
+  crypto_ok e ke A -> (forall kbs, e_sigok e kbs [] = false) ->
+  forall (mall rhs : bool) (m : ms) (t : ty),
+    type_of m = ROk t -> c_base (t_corr t) = BB -> wf e ke m -> no_multi m ->
+    forall tpl bs, plan_template ke se mall rhs m = Some tpl -> plan_complete f tpl = Some bs ->
+    plan_abs ke se mall rhs m = None -> plan_rel ke se mall rhs m = None ->
+    forall lt sq ver, accepts (with_locks e lt sq ver) (enc ke m) (rev bs) = true.
+Proof. exact plan_no_lock_any_tx. Qed.
+Print Assumptions C17_no_lock_any_tx.
+
+Theorem C17_no_abs_any_locktime :
+  forall (e : env) (ke : keyenv) (A : assets) (se : senv) (f : fill),
+  linked ke A se f -> (forall ks, length (ksort ke ks) = length ks) ->
+  crypto_ok e ke A -> (forall kbs, e_sigok e kbs [] = false) ->
+  forall (mall rhs : bool) (m : ms) (t : ty),
+    type_of m = ROk t -> c_base (t_corr t) = BB -> wf e ke m -> no_multi m ->
+    forall tpl bs, plan_template ke se mall rhs m = Some tpl -> plan_complete f tpl = Some bs ->
+    plan_abs ke se mall rhs m = None -> lock_met e None (plan_rel ke se mall rhs m) ->
+    forall lt, accepts (with_locks e lt (e_sequence e) (e_txversion e)) (enc ke m) (rev bs) = true.
+Proof. exact plan_no_abs_any_locktime. Qed.
+Print Assumptions C17_no_abs_any_locktime.
+
+Theorem C17_no_rel_any_sequence :
+  forall (e : env) (ke : keyenv) (A : assets) (se : senv) (f : fill),
+  linked ke A se f -> (forall ks, length (ksort ke ks) = length ks) ->
+  crypto_ok e ke A -> (forall kbs, e_sigok e kbs [] = false) ->
+  forall (mall rhs : bool) (m : ms) (t : ty),
+    type_of m = ROk t -> c_base (t_corr t) = BB -> wf e ke m -> no_multi m ->
+    forall tpl bs, plan_template ke se mall rhs m = Some tpl -> plan_complete f tpl = Some bs ->
+    plan_rel ke se mall rhs m = None -> lock_met e (plan_abs ke se mall rhs m) None ->
+    forall sq ver, (plan_abs ke se mall rhs m = None \/ sq <> SEQ_FINAL) ->
+      accepts (with_locks e (e_locktime e) sq ver) (enc ke m) (rev bs) = true.
+Proof. exact plan_no_rel_any_sequence. Qed.
+Print Assumptions C17_no_rel_any_sequence.
+
+(* ---------- the executed path ---------- *)
+Theorem C17_executed_locks :
+  forall (e : env) (ke : keyenv) (A : assets) (se : senv) (f : fill),
+  linked ke A se f -> (forall ks, length (ksort ke ks) = length ks) ->
+  crypto_ok e ke A -> (forall kbs, e_sigok e kbs [] = false) ->
+  forall (mall rhs : bool) (m : ms) (t : ty),
+    type_of m = ROk t -> c_base (t_corr t) = BB -> wf e ke m -> no_multi m ->
+    forall tpl bs, plan_template ke se mall rhs m = Some tpl -> plan_complete f tpl = Some bs ->
+    forall below al, lock_met e (plan_abs ke se mall rhs m) (plan_rel ke se mall rhs m) ->
+      tr_ok (snd (sat_dissat ke se mall rhs m)) (tr_script e (enc ke m) (mkSt (rev bs ++ below) al)).
+Proof. exact plan_executed_locks. Qed.
+Print Assumptions C17_executed_locks.
+
+Theorem C17_locks_on_path :
+  forall (e : env) (ke : keyenv) (A : assets) (se : senv) (f : fill),
+  linked ke A se f -> (forall ks, length (ksort ke ks) = length ks) ->
+  crypto_ok e ke A -> (forall kbs, e_sigok e kbs [] = false) ->
+  forall (mall rhs : bool) (m : ms) (t : ty),
+    type_of m = ROk t -> c_base (t_corr t) = BB -> wf e ke m -> no_multi m ->
+    forall tpl bs, plan_template ke se mall rhs m = Some tpl -> plan_complete f tpl = Some bs ->
+    exists cs,
+      accepts_tr (ref_env e (plan_abs ke se mall rhs m) (plan_rel ke se mall rhs m)) (enc ke m) (rev bs) = Some cs /\
+      (forall T, plan_abs ke se mall rhs m = Some T -> In (KAbs T) cs) /\
+      (forall R, plan_rel ke se mall rhs m = Some R -> In (KRel R) cs) /\
+      (plan_abs ke se mall rhs m = None -> forall n, ~ In (KAbs n) cs) /\
+      (plan_rel ke se mall rhs m = None -> forall n, ~ In (KRel n) cs).
+Proof. exact plan_locks_on_path. Qed.
+Print Assumptions C17_locks_on_path.
+
+(* every Stack of the satisfier (any fragment, either side) is a table entry for the assets restricted
+   to that result's own locks *)
+Theorem C17_result_in_restricted_table :
+  forall (ke : keyenv) (A : assets) (se : senv) (f : fill),
+  linked ke A se f -> (forall ks, length (ksort ke ks) = length ks) ->
+  forall (mall rhs : bool) (m : ms), kwf m ->
+    let d := fst (sat_dissat ke se mall rhs m) in
+    let s := snd (sat_dissat ke se mall rhs m) in
+    (forall l bs, s_stack d = WStack l -> fill_all f l = Some bs ->
+       In (rev bs) (all_dsat ke (restrict A (s_abs d) (s_rel d)) m)) /\
+    (forall l bs, s_stack s = WStack l -> fill_all f l = Some bs ->
+       In (rev bs) (all_sat ke (restrict A (s_abs s) (s_rel s)) m)).
+Proof. exact sat_in_table_locks. Qed.
+Print Assumptions C17_result_in_restricted_table.
+
+(* Script level: only the executed lock checks look at nLockTime / nSequence / version *)
+Theorem C17_exec_lock_factor : forall e e' : env, same_oracles e e' ->
+  forall (s : script) (st st1 : state), exec e s st = Ok st1 ->
+    exec e' s st = if evs_ok e' (tr_script e s st) then Ok st1 else Fail.
+Proof. exact exec_lock_factor. Qed.
+Print Assumptions C17_exec_lock_factor.
+
+(* ---------- non-vacuity ---------- *)
+(* or_d(pk(0), and_v(v:pk(1), after(100))), only key 1 signs: both modes report after = 100, no older *)
+Example C17_ex_reports : forall mall : bool,
+  plan_template lx_ke lx_senv mall true lx_ms = Some [PhSig 1%N; PhPushZero] /\
+  plan_complete lx_fill [PhSig 1%N; PhPushZero] = Some [[7; 2; 1]; []]%N /\
+  plan_abs lx_ke lx_senv mall true lx_ms = Some 100%N /\ plan_rel lx_ke lx_senv mall true lx_ms = None.
+Proof. intros [|]; vm_compute; repeat split; reflexivity. Qed.
+Example C17_ex_accept_100 : accepts (lx_env 100 0 2) (enc lx_ke lx_ms) (rev [[7; 2; 1]; []]%N) = true.
+Proof. exact lx_accept_100. Qed.
+Example C17_ex_reject_99 : exec (lx_env 99 0 2) (enc lx_ke lx_ms) (mkSt (rev [[7; 2; 1]; []]%N) []) = Fail.
+Proof. exact lx_reject_99. Qed.
+Example C17_ex_reject_other_unit : exec (lx_env 500000100 0 2) (enc lx_ke lx_ms) (mkSt (rev [[7; 2; 1]; []]%N) []) = Fail.
+Proof. exact lx_reject_unit. Qed.
+Example C17_ex_reject_final_sequence : exec (lx_env 100 4294967295 2) (enc lx_ke lx_ms) (mkSt (rev [[7; 2; 1]; []]%N) []) = Fail.
+Proof. exact lx_reject_final. Qed.
+(* the general theorem instantiated (linked, crypto_ok, typing, wf all hold for this instance) *)
+Example C17_ex_exact : forall (mall : bool) lt sq ver,
+  accepts (lx_env lt sq ver) (enc lx_ke lx_ms) (rev [[7; 2; 1]; []]%N) = true <->
+  check_locktime (lx_env lt sq ver) 100 = true.
+Proof. exact lx_exact. Qed.
+(* thresh(2, pk(0), s:pk(1), sln:older(7)): older(7) is on the chosen path, reported, and needed *)
+Example C17_ex_thresh : forall mall : bool,
+  let r := snd (sat_dissat lx_ke lx_senv mall true lx_ms2) in
+  let bs := [[]; [7; 2; 1]; []]%N in
+  s_stack r = WStack [PhPushZero; PhSig 1%N; PhPushZero] /\
+  fill_all lx_fill [PhPushZero; PhSig 1%N; PhPushZero] = Some bs /\ s_abs r = None /\ s_rel r = Some 7%N /\
+  accepts (lx_env 0 7 2) (enc lx_ke lx_ms2) (rev bs) = true /\
+  exec (lx_env 0 6 2) (enc lx_ke lx_ms2) (mkSt (rev bs) []) = Fail /\
+  exec (lx_env 0 7 1) (enc lx_ke lx_ms2) (mkSt (rev bs) []) = Fail /\
+  exec (lx_env 0 (7 + 4194304) 2) (enc lx_ke lx_ms2) (mkSt (rev bs) []) = Fail /\
+  exec (lx_env 0 (7 + 2147483648) 2) (enc lx_ke lx_ms2) (mkSt (rev bs) []) = Fail.
+Proof. exact lx2_reports. Qed.
